@@ -180,8 +180,8 @@ func checkC01(ctx *pbt.Ctx, c c01Case) error {
 		real[i] = s.MustTriple()
 	}
 	st := memory.NewStore()
-	nameGen := map[string]int{}          // live name -> generation
-	sets := map[int]map[string]bool{}    // generation -> set of keys
+	nameGen := map[string]int{}       // live name -> generation
+	sets := map[int]map[string]bool{} // generation -> set of keys
 	var handles []c01Handle
 	nextGen := 0
 	removedAfterAdd, readd, twoAlive := false, false, false
